@@ -431,10 +431,32 @@ def r4_filters(ctx) -> None:
                 and _is_filter_call(x.generators[0].ifs[0]) for x in ast.walk(f.node)) or any(
       isinstance(x, ast.Call) and dotted(x.func) == 'filter' and len(x.args) == 2 and isinstance(x.args[0], ast.Name)
       and x.args[0].id in fvars for x in ast.walk(f.node))
+  # loop form: `for t in all: if not trial_filter(t): continue; ...; out.append(t)` - the only test in the loop that
+  # decides whether the append is reached is the filter call, on its true side
+  g = cfgmod.CFG(f.node)
+  loop_selecting_ok = None
+  for hdr in [n for n in g.nodes if n.kind == 'for']:
+    apps = [n for n in g.nodes if n.loops and n.loops[-1] is hdr.ast and any(
+        isinstance(c.func, ast.Attribute) and c.func.attr == 'append' for c in flow.node_calls(n))]
+    if not apps or not isinstance(hdr.ast.target, ast.Name):
+      continue
+    a_ = apps[0]
+    selecting = []
+    for t in [n for n in g.nodes if n.kind == 'test' and n.loops and n.loops[-1] is hdr.ast]:
+      reach = {lab: a_ in g.reachable([m for m, l2 in t.succs if l2 == lab], blocked=[hdr], include_starts=True) for lab in ('T', 'F')}
+      if reach['T'] != reach['F']:
+        selecting.append((t, 'T' if reach['T'] else 'F'))
+    def is_filter_test(t, lab):
+      e, pol = t.ast, lab == 'T'
+      while isinstance(e, ast.UnaryOp) and isinstance(e.op, ast.Not):
+        e, pol = e.operand, not pol
+      return pol and _is_filter_call(e) and isinstance(e.args[0], ast.Name) and e.args[0].id == hdr.ast.target.id
+    loop_selecting_ok = bool(selecting) and all(is_filter_test(t, lab) for t, lab in selecting)
+  if loop_selecting_ok:
+    applied = True
   ctx.check(applied, 'R4', 'ServicePolicySupporter: filter applied to all listed trials', f.node, '[t for t in all if trial_filter(t)]',
             'the constructed filter is not applied to the listed trials', construct='applied', func=f.qualname)
   # nothing but the TrialFilter decides: converted list == every listed trial
-  g = cfgmod.CFG(f.node)
   prov = flow.Provenance(g, on_call=lambda c: 'stop', on_attr=lambda a: 'through')
   conv = [c for c in flow.calls_in(f.node) if (dotted(c.func) or '').endswith('TrialConverter.from_protos')]
   direct = False
@@ -444,6 +466,8 @@ def r4_filters(ctx) -> None:
     direct = len(calls) == 1 and (dotted(calls[0].func) or '').endswith('.ListTrials') and not any(k == 'iter' for k, _ in o)
   only_filter = all(len(x.generators[0].ifs) == 1 and _is_filter_call(x.generators[0].ifs[0])
                     for x in ast.walk(f.node) if isinstance(x, (ast.ListComp, ast.GeneratorExp)) and x.generators[0].ifs)
+  if loop_selecting_ok is False:
+    only_filter = False
   ctx.check(direct and only_filter, 'R4', 'ServicePolicySupporter: no selection besides the TrialFilter', f.node,
             'every listed trial is converted; only trial_filter(t) selects',
             'trials are pre-selected before the exact TrialFilter runs (e.g. by HasField(final_measurement)): completed trials '
